@@ -676,6 +676,19 @@ theorem acquire_order_ok :
     Gen.localAcquireOrder_extracted = true ∧
     Gen.localAcquireOrder = ["centcoreSem", "memMBSem", "vmemMBSem", "procsSem"] := by decide
 
+/-- **One acquisition order on EVERY path** through the job goroutine of `Enqueue`
+(regenerated by an abstract interpretation that follows both arms of every `if`, early
+returns, and calls of local function values — all the literals a variable may hold):
+each path acquires along a subsequence of cores → memory → vmem → processes, and the
+full order occurs.  A second order on some path (e.g. memory before cores for "big"
+jobs) makes hold-and-wait deadlock possible and voids `local_no_deadlock`; the
+source-order fact `acquire_order_ok` alone would not see it. -/
+theorem acquire_order_same_on_every_path :
+    Gen.localAcquireOrders_extracted = true ∧
+    (Gen.localAcquireOrders.all fun o =>
+      o.isSublist ["centcoreSem", "memMBSem", "vmemMBSem", "procsSem"]) = true ∧
+    ["centcoreSem", "memMBSem", "vmemMBSem", "procsSem"] ∈ Gen.localAcquireOrders := by decide
+
 /-- the per-job process estimate constant used by the model is the one in the source -/
 theorem procs_per_job_ok :
     Gen.localProcsPerJob_extracted = true ∧ Gen.localProcsPerJob = procsPerJob := by decide
@@ -1404,6 +1417,17 @@ example :
     ((MJP.init 1).run [.enter 1 7 .queued false, .enter 2 8 .queued false, .enter 3 9 .queued false]).parked
       = [(2, 8), (3, 9)] ∧
     s.running = [9] ∧ s.parked = [] ∧ s.woken = [] := by decide
+
+/-- "an availability recovery reaches a lone waiter": the memory semaphore was lowered to 47 MB
+by a shortage, a job asking for 2048 of 4096 MB waits, nobody is running (nothing reserved, no
+usage below mrp); the next `refreshResources` on a machine with memory to spare grants it —
+the instance of `refresh_never_parks_a_fitting_job` the refresh workers drive on the real code -/
+example :
+    let s : Sem := ⟨4096, 47, 0, [(1, 2048)]⟩
+    let o : Martian.SemaphoreRefresh.Obs := ⟨50000 * Martian.SemaphoreRefresh.MB, 0, 0, 5, 0, 4096, 300⟩
+    NoLost s ∧ Martian.SemaphoreRefresh.ceilMB o.rss ≤ s.reserved ∧
+    (step s (Martian.SemaphoreRefresh.refreshMemOp o)).1.waiters = [] ∧
+    (step s (Martian.SemaphoreRefresh.refreshMemOp o)).1.reserved = 2048 := by decide
 
 /-- an update that grows the size by 1 wakes the waiter that now fits -/
 example : observedSize ⟨8192, 8091, 0, [(1, 8092)]⟩ (.updActual 8092) = some 8092 ∧
